@@ -513,5 +513,141 @@ Theorem preorder_spec t evs : flatten t = Some evs -> preorder (tokens_of t) = S
 Proof.
   intros HE. unfold preorder.
   pose proof (all_trav t evs HE (S (length (tokens_of t))) [] [] ltac:(lia)) as H.
-  rewrite app_nil_r in H. rewrite H. rewrite app_nil_r. now rewrite rev_involutive.
+  rewrite app_nil_r in H. rewrite H. rewrite app_nil_r. now rewrite <- rev_alt, rev_involutive.
 Qed.
+
+(* ---------- preorder with a visitor that answers VisitOPSkip ---------- *)
+Section Skip.
+Variable skip : nat -> bool.
+
+Fixpoint fskip_list (l : list tree) (k : nat) : option (list pev * nat) :=
+  match l with
+  | [] => Some ([], k)
+  | x :: tl => match flatten_skip skip x k with
+               | Some (a, k1) => match fskip_list tl k1 with Some (b, k2) => Some (a ++ b, k2) | None => None end
+               | None => None
+               end
+  end.
+
+Fixpoint fskip_members (l : list (bytes * tree)) (k : nat) : option (list pev * nat) :=
+  match l with
+  | [] => Some ([], k)
+  | (key, x) :: tl =>
+    match unescape key, flatten_skip skip x k with
+    | Some d, Some (a, k1) => match fskip_members tl k1 with Some (b, k2) => Some (PKey d :: a ++ b, k2) | None => None end
+    | _, _ => None
+    end
+  end.
+
+Lemma flatten_skip_arr l k : flatten_skip skip (TArr l) k =
+  if skip k then Some ([PArrBegin; PArrEnd], S k)
+  else match fskip_list l (S k) with Some (evs, k') => Some (PArrBegin :: evs ++ [PArrEnd], k') | None => None end.
+Proof. reflexivity. Qed.
+Lemma flatten_skip_obj l k : flatten_skip skip (TObj l) k =
+  if skip k then Some ([PObjBegin; PObjEnd], S k)
+  else match fskip_members l (S k) with Some (evs, k') => Some (PObjBegin :: evs ++ [PObjEnd], k') | None => None end.
+Proof. reflexivity. Qed.
+
+
+Definition travs_ok (x : tree) : Prop :=
+  forall k evs k', flatten_skip skip x k = Some (evs, k') ->
+  forall fuel rest acc, (length (tokens_of x) < fuel)%nat ->
+    traverse_skip skip fuel PValue (tokens_of x ++ rest) acc k = Some (rev evs ++ acc, rest, k').
+
+Lemma travs_elems l : Forall travs_ok l -> l <> [] ->
+  forall k evs k', fskip_list l k = Some (evs, k') ->
+  forall fuel rest acc, (length (elems_toks l) < fuel)%nat ->
+    traverse_skip skip fuel PElems (elems_toks l ++ rest) acc k = Some (PArrEnd :: rev evs ++ acc, rest, k').
+Proof.
+  induction 1 as [|x l Hx Hl IH]; intros NE k evs k' HE fuel rest acc HF; [congruence|].
+  destruct fuel as [|f]; [lia|].
+  cbn [fskip_list] in HE. destruct (flatten_skip skip x k) as [[a k1]|] eqn:EA; try discriminate.
+  destruct (fskip_list l k1) as [[b k2]|] eqn:EB; try discriminate. inversion HE; subst evs k'.
+  destruct l as [|y tl].
+  - simpl in EB. inversion EB; subst b k2. simpl in HF. rewrite app_length in HF. simpl in HF.
+    simpl. rewrite <- app_assoc. rewrite (Hx k a k1 EA) by lia. rewrite app_nil_r. reflexivity.
+  - change (elems_toks (x :: y :: tl)) with (tokens_of x ++ KComma :: elems_toks (y :: tl)) in *.
+    rewrite app_length in HF. cbn [length] in HF.
+    cbn [traverse_skip]. rewrite <- app_assoc. rewrite (Hx k a k1 EA) by lia. cbn [app].
+    rewrite (IH ltac:(discriminate) k1 b k2 EB) by lia.
+    rewrite rev_app_distr, <- app_assoc. reflexivity.
+Qed.
+
+Lemma travs_members l : Forall (fun kv => travs_ok (snd kv)) l -> l <> [] ->
+  forall k evs k', fskip_members l k = Some (evs, k') ->
+  forall fuel rest acc, (length (members_toks l) < fuel)%nat ->
+    traverse_skip skip fuel PMembers (members_toks l ++ rest) acc k = Some (PObjEnd :: rev evs ++ acc, rest, k').
+Proof.
+  induction 1 as [|[key x] l Hx Hl IH]; intros NE k evs k' HE fuel rest acc HF; [congruence|].
+  destruct fuel as [|f]; [lia|]. simpl in Hx.
+  cbn [fskip_members] in HE. destruct (unescape key) as [d|] eqn:EK; try discriminate.
+  destruct (flatten_skip skip x k) as [[a k1]|] eqn:EA; try discriminate.
+  destruct (fskip_members l k1) as [[b k2]|] eqn:EB; try discriminate. inversion HE; subst evs k'.
+  destruct l as [|[key2 y] tl].
+  - simpl in EB. inversion EB; subst b k2. simpl in HF. rewrite app_length in HF. simpl in HF.
+    simpl. rewrite EK. rewrite <- app_assoc. rewrite (Hx k a k1 EA) by lia. rewrite app_nil_r.
+    rewrite <- app_assoc. reflexivity.
+  - change (members_toks ((key, x) :: (key2, y) :: tl)) with (KStr key :: KColon :: tokens_of x ++ KComma :: members_toks ((key2, y) :: tl)) in *.
+    cbn [length] in HF. rewrite app_length in HF. cbn [length] in HF.
+    cbn [traverse_skip app]. rewrite EK. rewrite <- app_assoc. rewrite (Hx k a k1 EA) by lia. cbn [app].
+    rewrite (IH ltac:(discriminate) k1 b k2 EB) by lia.
+    cbn [rev]. rewrite rev_app_distr, <- !app_assoc. reflexivity.
+Qed.
+
+Lemma all_travs t : travs_ok t.
+Proof.
+  induction t using tree_ind2; intros k evs k' HE fuel rest acc HF; (destruct fuel as [|f]; [simpl in HF; lia|]).
+  - inversion HE; subst. reflexivity.
+  - inversion HE; subst. reflexivity.
+  - inversion HE; subst. reflexivity.
+  - inversion HE; subst. reflexivity.
+  - simpl in HE. simpl. destruct (unescape s); inversion HE; subst. reflexivity.
+  - rewrite flatten_skip_arr in HE.
+    destruct (skip k) eqn:SK.
+    { inversion HE; subst. rewrite tokens_arr. cbn [app traverse_skip]. rewrite SK.
+      change (KLBrack :: elems_toks l ++ rest) with (tokens_of (TArr l) ++ rest). rewrite skip1_spec. reflexivity. }
+    rewrite tokens_arr in *.
+    destruct (fskip_list l (S k)) as [[evl kl]|] eqn:EL; try discriminate. inversion HE; subst evs k'.
+    destruct l as [|x tl].
+    { simpl in EL. inversion EL; subst. cbn [traverse_skip elems_toks app]. rewrite SK. reflexivity. }
+    destruct (vstart_head x) as (h & r & EH & VS).
+    assert (E2 : exists r2, elems_toks (x :: tl) ++ rest = h :: r2).
+    { destruct tl as [|y tl2].
+      - simpl. rewrite EH. simpl. eauto.
+      - change (elems_toks (x :: y :: tl2)) with (tokens_of x ++ KComma :: elems_toks (y :: tl2)). rewrite EH. simpl. eauto. }
+    destruct E2 as (r2 & E2).
+    assert (HS : traverse_skip skip (S f) PValue (KLBrack :: elems_toks (x :: tl) ++ rest) acc k =
+                 traverse_skip skip f PElems (elems_toks (x :: tl) ++ rest) (PArrBegin :: acc) (S k)).
+    { rewrite E2. cbn [traverse_skip]. rewrite SK. destruct h; try contradiction; reflexivity. }
+    cbn [app]. rewrite HS. rewrite (travs_elems (x :: tl) H ltac:(discriminate) (S k) evl kl EL) by (cbn [length] in HF; lia).
+    cbn [rev]. rewrite rev_app_distr. simpl. rewrite <- app_assoc. reflexivity.
+  - rewrite flatten_skip_obj in HE.
+    destruct (skip k) eqn:SK.
+    { inversion HE; subst. rewrite tokens_obj. cbn [app traverse_skip]. rewrite SK.
+      change (KLBrace :: members_toks l ++ rest) with (tokens_of (TObj l) ++ rest). rewrite skip1_spec. reflexivity. }
+    rewrite tokens_obj in *.
+    destruct (fskip_members l (S k)) as [[evl kl]|] eqn:EL; try discriminate. inversion HE; subst evs k'.
+    destruct l as [|[key x] tl].
+    { simpl in EL. inversion EL; subst. cbn [traverse_skip members_toks app]. rewrite SK. reflexivity. }
+    assert (E2 : exists r2, members_toks ((key, x) :: tl) ++ rest = KStr key :: r2).
+    { destruct tl as [|[k2 y] tl2]; simpl; eauto. }
+    destruct E2 as (r2 & E2).
+    assert (HS : traverse_skip skip (S f) PValue (KLBrace :: members_toks ((key, x) :: tl) ++ rest) acc k =
+                 traverse_skip skip f PMembers (members_toks ((key, x) :: tl) ++ rest) (PObjBegin :: acc) (S k)).
+    { rewrite E2. cbn [traverse_skip]. rewrite SK. reflexivity. }
+    cbn [app]. rewrite HS. rewrite (travs_members ((key, x) :: tl) H ltac:(discriminate) (S k) evl kl EL) by (cbn [length] in HF; lia).
+    cbn [rev]. rewrite rev_app_distr. simpl. rewrite <- app_assoc. reflexivity.
+Qed.
+
+(* preorder_skip_spec: whatever containers the visitor skips, on the token stream of any tree (tokens carry no white space: the
+   event stream is independent of insignificant white space by construction of the model) the traverser emits exactly the
+   flattening in which each skipped container contributes its Begin and End only, and everything after it is intact *)
+Theorem preorder_skip_spec t evs k' : flatten_skip skip t 0 = Some (evs, k') -> preorder_skip skip (tokens_of t) = Some evs.
+Proof.
+  intros HE. unfold preorder_skip.
+  pose proof (all_travs t 0%nat evs k' HE (S (length (tokens_of t))) [] [] ltac:(lia)) as H.
+  rewrite app_nil_r in H. rewrite H. rewrite app_nil_r. now rewrite <- rev_alt, rev_involutive.
+Qed.
+
+End Skip.
+
